@@ -31,7 +31,7 @@ def run(ctx):
                           nontrivial=lambda e, p: len(p) >= 2 and any(s["act"] == "write" for s in p))
     net_common.s2c_buffer(ctx, ctx.pick({"L": 4}, {"L": 5, "PieceLens": "{0, 1, 4, 5, 9}"}))
     ctx.cov["exhaustive"] = True
-    net_common.c2s_stream(ctx, "write", n=ctx.pick(100, 3000))
+    net_common.c2s_stream(ctx, "write", n=ctx.pick(100, 2000))
     ctx.cov["rule"] = ("paths: every sequence of write(0/1/3/5 bytes)/grant(1/2/6)/close/write-error of length <= %d "
                        "(max_write_buffer_size none / 6) under %d transport variants, every append/peek/advance "
                        "sequence of length <= %d on _StreamBuffer(threshold 4); plus seeded random recorded write "
